@@ -59,6 +59,8 @@ func ConvertRequest(ctx *fasthttp.RequestCtx, r *http.Request, forServer bool) e
 		sv := b2s(v)
 
 		switch sk {
+		case "Host":
+			// Like net/http, expose the host only as r.Host.
 		case "Transfer-Encoding":
 			r.TransferEncoding = append(r.TransferEncoding, sv)
 		default:
